@@ -64,6 +64,9 @@ type Sched struct {
 	KeepTrace bool
 	// Preempts counts segments that ended by budget exhaustion (a forced switch).
 	Preempts int
+	// OnStep, when set, is called by the scheduler between two steps (no logical
+	// thread is running): the place to evaluate global state invariants.
+	OnStep func()
 }
 
 // Segment is one scheduling decision: thread T ran for Yields yield points.
@@ -152,6 +155,9 @@ func (s *Sched) Run(pick Picker) Outcome {
 		for {
 			s.step(t)
 			n++
+			if s.OnStep != nil {
+				s.OnStep()
+			}
 			if t.done {
 				why = "done"
 				break
